@@ -163,6 +163,35 @@ theorem forwardT_stable (netAt : Nat → Net) (net : Net) (owner : Nat → Nat) 
       · rfl
       · exact ih _ _ _ _ (fun t' ht' => hst t' (by omega))
 
+/-- the explicit header writes leave nothing of the old header: the delivered header is determined by
+    the walk, the stamped sender and the last gate alone -/
+theorem forwardH_eq (netAt : Nat → Net) (owner : Nat → Nat) (active : Nat → Nat → Bool) :
+    ∀ (fuel g : Nat) (came : Bool) (t : Nat) (h : Hdr),
+    forwardH netAt owner active fuel g came t h =
+      (forwardT netAt owner active h.sender fuel g came t h.last).toDelivery := by
+  intro fuel
+  induction fuel with
+  | zero => intro g came t h; rfl
+  | succ fuel ih =>
+    intro g came t h
+    simp only [forwardH, forwardT]
+    cases nextHop (netAt t) g came with
+    | none => rfl
+    | some next =>
+      simp only []
+      split
+      · rfl
+      · rw [ih]
+
+theorem sendH_eq (netAt : Nat → Net) (owner : Nat → Nat) (active : Nat → Nat → Bool) (sm fuel g issue sendTime : Nat)
+    (h : Hdr) :
+    sendH netAt owner active sm fuel g issue sendTime h =
+      (sendIssued netAt owner active sm fuel g issue sendTime).toDelivery := by
+  simp only [sendH, sendIssued]
+  split
+  · rw [forwardH_eq]
+  · rfl
+
 theorem seg_append (net : Net) : ∀ (h1 : List Conn) (g : Nat) (came c1 : Bool) (h2 : List Conn) (c2 : Bool),
     Seg net g came h1 c1 → Seg net (lastGate g h1) c1 h2 c2 → Seg net g came (h1 ++ h2) c2 := by
   intro h1
